@@ -11,9 +11,11 @@ import (
 	"context"
 	"encoding/gob"
 	"fmt"
+	"io"
 	"sync"
 	"time"
 
+	"github.com/grailbio/base/retry"
 	"github.com/grailbio/bigmachine"
 	"github.com/grailbio/bigmachine/testsystem"
 	"github.com/grailbio/bigslice"
@@ -174,4 +176,33 @@ func VerifDefaultPartition(f frame.Frame, nshard int) []int {
 	shards := make([]int, f.Len())
 	defaultPartitioner(context.Background(), f, nshard, shards)
 	return shards
+}
+
+// ---- C15: task stores and the retrying reader
+
+type VerifStore = Store
+type VerifWriteCommitter = writeCommitter
+
+func VerifNewMemoryStore() Store            { return newMemoryStore() }
+func VerifNewFileStore(prefix string) Store { return &fileStore{Prefix: prefix} }
+func VerifStat(s Store, t TaskName, p int) (size, records int64, err error) {
+	info, err := s.Stat(context.Background(), t, p)
+	return info.Size, info.Records, err
+}
+
+type VerifOpenerFunc func(ctx context.Context, offset int64) (io.ReadCloser, error)
+
+func (f VerifOpenerFunc) OpenAt(ctx context.Context, offset int64) (io.ReadCloser, error) {
+	return f(ctx, offset)
+}
+
+func VerifNewRetryReader(ctx context.Context, f VerifOpenerFunc) io.ReadCloser {
+	return newRetryReader(ctx, f)
+}
+
+// VerifSetRetryPolicy replaces the package's retry policy (zero backoff in the harness) and returns the old one.
+func VerifSetRetryPolicy(p retry.Policy) retry.Policy {
+	old := retryPolicy
+	retryPolicy = p
+	return old
 }
